@@ -21,7 +21,9 @@ package c16
 // point; the harness resolver contains a scheduling point inside the lookup ("the DNS query is on the wire") and the
 // harness transport one inside RoundTrip ("the request is on the wire"), so that other deliveries run while one is
 // resolving or waiting for its answer. EVERY interleaving of those points is executed (no preemption bound, no
-// reduction) for two threads; three threads: see concBound.
+// reduction) for two threads; three threads: see concBound. Every scenario is first explored within 2 preemptions
+// (pass 1) and then without a bound (pass 2), so that a tree with many scheduling points in Deliver, on which the
+// unbounded pass does not finish within the budget, still has every scenario explored within the small bound.
 //
 // Oracle, after every execution:
 //
@@ -214,8 +216,20 @@ func concScenarios(thorough bool) []concScenario {
 						hops++
 					}
 				}
-				if k == 3 && hops > 1 { // three threads: at most one of them is a redirect chain
+				if k == 3 && hops > 1 { // three threads: at most one of them is a redirect chain ...
 					continue
+				}
+				if k == 3 && hops == 1 { // ... from the apex into the other scheme / another path / the private name
+					skip := false
+					for _, i := range ms {
+						d := dels[i]
+						if d.Hop != "" && !(d.First == "https-name" && (d.Hop == "http-name" || d.Hop == "https-name-path" || d.Hop == "https-resolves-private")) {
+							skip = true
+						}
+					}
+					if skip {
+						continue
+					}
 				}
 				out = append(out, s)
 			}
@@ -457,7 +471,7 @@ type concFail struct {
 const concSep = "\x00"
 
 // concExplore explores one scenario. replay != nil: run exactly that schedule.
-func concExplore(t *testing.T, s concScenario, real dispatcher.EgressPolicy, ans *concAnswers, deadline time.Time, maxExecs int, replay []int) (*sched.Result, []string) {
+func concExplore(t *testing.T, s concScenario, real dispatcher.EgressPolicy, ans *concAnswers, bound int, deadline time.Time, maxExecs int, replay []int) (*sched.Result, []string) {
 	ref := s.PolSpec.ref()
 	alone := make([]string, len(s.Deliveries))
 	for i, d := range s.Deliveries {
@@ -501,7 +515,7 @@ func concExplore(t *testing.T, s concScenario, real dispatcher.EgressPolicy, ans
 			}
 		}
 	}
-	opt := sched.Options{Name: s.name(), Bound: concBound(s), Deadline: deadline, MaxExecs: maxExecs, OnExecution: oracle}
+	opt := sched.Options{Name: s.name(), Bound: bound, Deadline: deadline, MaxExecs: maxExecs, OnExecution: oracle}
 	if replay != nil {
 		opt.Replay = replay
 	}
@@ -528,25 +542,27 @@ type concFailure struct {
 }
 
 type concReply struct {
-	Scenarios  int
-	Skipped    int // scenarios not explored because the budget was reached
-	Executions int
-	Points     int
-	MaxPoints  int
-	Bounded    int            // scenarios explored with a preemption bound
-	Classes    map[string]int // coverage classes -> executions
-	Verdicts   map[string]int // verdict of a delivery alone -> deliveries
-	Capped     int // scenarios that reached the per-scenario execution cap or the deadline while being explored
-	Exhaustive bool
-	Failures   []concFailure
-	InfraErr   string
+	Scenarios       int
+	Skipped         int // scenarios not explored because the budget was reached
+	Executions      int
+	Points          int
+	MaxPoints       int
+	Bounded         int            // scenarios explored with a preemption bound
+	Classes         map[string]int // coverage classes -> executions
+	Verdicts        map[string]int // verdict of a delivery alone -> deliveries
+	Pass1           int            // scenarios explored within 2 preemptions (pass 1)
+	Pass1Executions int
+	Capped          int // scenarios that reached the per-scenario execution cap or the deadline while being explored
+	Exhaustive      bool
+	Failures        []concFailure
+	InfraErr        string
 }
 
 func concBudget(thorough bool) time.Duration {
 	if thorough {
 		return 5 * time.Minute
 	}
-	return 35 * time.Second
+	return 25 * time.Second
 }
 
 // concMaxExecs: cap on the executions of ONE scenario. The unchanged tree needs at most 252 (two redirect chains) resp.
@@ -574,45 +590,66 @@ func concChild(t *testing.T, thorough bool) {
 		reals[p.Name] = real
 	}
 	scs := concScenarios(thorough)
-	// the scenarios are dealt round-robin
-	for idx := range scs {
-		if idx%shards != shard {
-			continue
-		}
-		s := scs[idx]
-		if time.Now().After(deadline) {
-			rep.Skipped++
-			rep.Exhaustive = false
-			continue
-		}
-		res, alone := concExplore(t, s, reals[s.Policy], ans, deadline, concMaxExecs(thorough), nil)
-		if res.InfraErr != nil {
-			rep.InfraErr = fmt.Sprintf("%s: %v", s.name(), res.InfraErr)
-			break
-		}
-		rep.Scenarios++
-		rep.Executions += res.Executions
-		rep.Points += res.Points
-		if res.MaxPoints > rep.MaxPoints {
-			rep.MaxPoints = res.MaxPoints
-		}
-		if res.Bound >= 0 {
-			rep.Bounded++
-		}
-		if !res.Exhaustive {
-			rep.Exhaustive = false
-			rep.Capped++
-		}
-		kinds := make([]string, len(alone))
-		for i, a := range alone {
-			kinds[i] = concVerdictKind(a)
-			rep.Verdicts[kinds[i]]++
-		}
-		rep.Classes[fmt.Sprintf("conc|%s|threads=%d|%s|%s|outcomes=%d", s.Policy, len(s.Deliveries), concRel(s, 0), strings.Join(kinds, ","), len(res.Outcomes))] += res.Executions
-		if f := res.Failure; f != nil {
-			cf := splitConcFail(f.Message)
-			s.Schedule, s.Trace, s.Observed, s.Alone = f.Schedule, f.Trace, f.Log, alone
-			rep.Failures = append(rep.Failures, concFailure{Key: cf.Key, Msg: cf.Msg, Index: idx, Scenario: s})
+	// The scenarios are dealt round-robin. Two passes, so that the budget is spent evenly when the tree under test has
+	// many scheduling points (locks in Deliver): pass 1 explores EVERY scenario within 2 preemptions (cheap: polynomial
+	// in the number of points), pass 2 explores every scenario without a bound (see concBound) — a superset of pass 1 —
+	// until the budget ends. A scenario that failed in pass 1 is not explored again.
+	failed := map[int]bool{}
+	for pass := 1; pass <= 2; pass++ {
+		for idx := range scs {
+			if idx%shards != shard || failed[idx] {
+				continue
+			}
+			s := scs[idx]
+			if time.Now().After(deadline) {
+				if pass == 2 {
+					rep.Skipped++
+				}
+				rep.Exhaustive = false
+				continue
+			}
+			bound := concBound(s)
+			if pass == 1 {
+				bound = 2
+			}
+			res, alone := concExplore(t, s, reals[s.Policy], ans, bound, deadline, concMaxExecs(thorough), nil)
+			if res.InfraErr != nil {
+				rep.InfraErr = fmt.Sprintf("%s: %v", s.name(), res.InfraErr)
+				runner.ShardReply(rep)
+			}
+			rep.Executions += res.Executions
+			rep.Points += res.Points
+			if res.MaxPoints > rep.MaxPoints {
+				rep.MaxPoints = res.MaxPoints
+			}
+			if f := res.Failure; f != nil {
+				cf := splitConcFail(f.Message)
+				s.Schedule, s.Trace, s.Observed, s.Alone = f.Schedule, f.Trace, f.Log, alone
+				rep.Failures = append(rep.Failures, concFailure{Key: cf.Key, Msg: cf.Msg, Index: idx, Scenario: s})
+				failed[idx] = true
+			}
+			if pass == 1 {
+				rep.Pass1++
+				rep.Pass1Executions += res.Executions
+				if !res.Exhaustive {
+					rep.Exhaustive = false
+				}
+				continue
+			}
+			rep.Scenarios++
+			if res.Bound >= 0 {
+				rep.Bounded++
+			}
+			if !res.Exhaustive {
+				rep.Exhaustive = false
+				rep.Capped++
+			}
+			kinds := make([]string, len(alone))
+			for i, a := range alone {
+				kinds[i] = concVerdictKind(a)
+				rep.Verdicts[kinds[i]]++
+			}
+			rep.Classes[fmt.Sprintf("conc|%s|threads=%d|%s|%s|outcomes=%d", s.Policy, len(s.Deliveries), concRel(s, 0), strings.Join(kinds, ","), len(res.Outcomes))] += res.Executions
 		}
 	}
 	runner.ShardReply(rep)
@@ -653,6 +690,8 @@ func concPartRun(r *runner.Run, t *testing.T) {
 		total.Points += rep.Points
 		total.Bounded += rep.Bounded
 		total.Capped += rep.Capped
+		total.Pass1 += rep.Pass1
+		total.Pass1Executions += rep.Pass1Executions
 		if rep.MaxPoints > total.MaxPoints {
 			total.MaxPoints = rep.MaxPoints
 		}
@@ -690,10 +729,11 @@ func concPartRun(r *runner.Run, t *testing.T) {
 	}
 	r.Set("concurrent_deliveries", map[string]any{
 		"policies": len(concPolicies), "urls": len(concURLs), "deliveries": len(concDeliveries()), "scenarios": all, "scenarios_explored": total.Scenarios,
-		"threads": runner.Pick(r, "2", "2 and 3 (three threads: at most one redirect chain)"), "executions": total.Executions, "choice_points": total.Points, "max_choice_points_per_execution": total.MaxPoints,
-		"preemption_bound":        "none (every interleaving) for two threads and for three threads without a redirect chain; 3 for three threads with a redirect chain",
-		"scenarios_with_a_bound":  total.Bounded,
-		"scenarios_capped":        total.Capped, "execution_cap_per_scenario": concMaxExecs(r.Thorough()),
+		"threads": runner.Pick(r, "2", "2 and 3 (three threads: at most one redirect chain, and only the chains https-name -> http-name / https-name-path / https-resolves-private)"), "executions": total.Executions, "choice_points": total.Points, "max_choice_points_per_execution": total.MaxPoints,
+		"preemption_bound":       "none (every interleaving) for two threads and for three threads without a redirect chain; 3 for three threads with a redirect chain",
+		"scenarios_with_a_bound": total.Bounded,
+		"scenarios_capped":       total.Capped, "execution_cap_per_scenario": concMaxExecs(r.Thorough()),
+		"pass1_scenarios_within_2_preemptions": total.Pass1, "pass1_executions": total.Pass1Executions,
 		"exhaustive_within_bound": total.Exhaustive, "shards": shards, "wall_s": time.Since(t0).Seconds()})
 	if !total.Exhaustive || total.Scenarios < all {
 		r.NotExhaustive(fmt.Sprintf("part S: execution cap or time budget reached: %d of %d scenarios explored completely", total.Scenarios-total.Capped, all))
@@ -719,7 +759,7 @@ func concPartRun(r *runner.Run, t *testing.T) {
 		}
 		sc := f.Scenario
 		r.Violation(f.Key, fmt.Sprintf("[concurrent deliveries on one HTTPDeliverer] %s\n  schedule: %v\n  trace: %s\n  observed: %v", f.Msg, sc.Schedule, sc.Trace, sc.Observed), sc, func() bool {
-			res, _ := concExplore(t, sc, real, ans, time.Time{}, 0, sc.Schedule)
+			res, _ := concExplore(t, sc, real, ans, -1, time.Time{}, 0, sc.Schedule)
 			return res.Failure != nil && res.InfraErr == nil
 		})
 	}
@@ -753,7 +793,7 @@ func concReplay(r *runner.Run, t *testing.T, raw json.RawMessage) {
 		r.Infra("replay: policy does not boot: %v", err)
 		return
 	}
-	res, alone := concExplore(t, sc, real, newConcAnswers(), time.Time{}, 0, sc.Schedule)
+	res, alone := concExplore(t, sc, real, newConcAnswers(), -1, time.Time{}, 0, sc.Schedule)
 	if res.InfraErr != nil {
 		r.Infra("replay: %v", res.InfraErr)
 		return
